@@ -225,6 +225,9 @@ fn check_independent(items: &[&str], reqs: &[Req], l: &mut Local) {
 }
 
 fn replay(case: &Value, l: &mut Local) {
+    if case["invalid_rule"].is_string() {
+        return check_invalid_forms(l);
+    }
     if case["independent"].as_bool() == Some(true) {
         let rules: Vec<String> = case["rules"].as_array().map(|a| a.iter().filter_map(|v| v.as_str().map(|s| s.to_string())).collect()).unwrap_or_default();
         let items: Vec<&str> = rules.iter().map(|s| s.as_str()).collect();
@@ -234,7 +237,50 @@ fn replay(case: &Value, l: &mut Local) {
     vh::netsweep::replay_case("c15", case, l, false);
 }
 
+/// csp rules combined with a request-type option: the parser documents them as invalid
+/// (error CspWithContentType) whichever option comes first. A rejected line is not a rule: next
+/// to a valid csp rule it changes nothing.
+const INVALID_CSP: [&str; 10] = [
+    "||x.com^$csp=d1,script",
+    "||x.com^$script,csp=d1",
+    "||x.com^$subdocument,csp=d2",
+    "||x.com^$csp=d2,subdocument",
+    "||x.com^$~script,csp=d3",
+    "||x.com^$document,csp=d3",
+    "@@||x.com^$image,csp",
+    "@@||x.com^$csp,image",
+    "@@||x.com^$xhr,csp=d1",
+    "||x.com^$csp=d1,~image",
+];
+
+fn check_invalid_forms(l: &mut Local) {
+    use adblock::lists::{parse_filter, ParseOptions};
+    for t in INVALID_CSP {
+        l.evaluations += 1;
+        l.compared += 1;
+        let accepted = vh::util::catch(|| parse_filter(t, true, ParseOptions::default()).is_ok());
+        l.hist(match accepted {
+            Ok(false) => "invalid-form:rejected",
+            Ok(true) => "invalid-form:ACCEPTED",
+            Err(_) => "invalid-form:PANIC",
+        });
+        if accepted != Ok(false) {
+            l.mismatch(vh::Mismatch {
+                sig: "c15.documented-invalid-csp-rule-accepted".into(),
+                what: format!("{:?} combines csp with a request-type option (documented as invalid) but the parser accepts it: {:?}", t, accepted),
+                case: serde_json::json!({"invalid_rule": t}),
+                size: t.len() as u64,
+            });
+        }
+    }
+}
+
 fn check(ctx: &Ctx) -> i32 {
+    {
+        let mut l = Local::default();
+        check_invalid_forms(&mut l);
+        ctx.merge(l);
+    }
     let k: u32 = ctx.tier.pick(3, 5);
     let reqs = requests();
     ctx.bound("list_max_len", k);
